@@ -11,10 +11,20 @@ import (
 
 func c01Programs(thorough bool) []diffrun.Program {
 	ps := ctl.Programs(2, 400)
+	// the same skeletons inside functions that suspend: the statements of one nesting level block
+	for _, mask := range []int{1, 2, 4} {
+		ps = append(ps, ctl.ProgramsMask(2, 400, mask)...)
+	}
 	ps = append(ps, expr.Programs()...)
-	ps = append(ps, expr.MiscProgram(), expr.EvalOrderProgram(), minx.Program(false))
+	ps = append(ps, expr.MiscProgram(), expr.EvalOrderProgram(), expr.LvalueProgram(), expr.LiteralProgram(), minx.Program(false))
 	if thorough {
+		for _, mask := range []int{3, 5, 6, 7} {
+			ps = append(ps, ctl.ProgramsMask(2, 400, mask)...)
+		}
 		ps = append(ps, ctl.Programs(3, 600)...)
+		for _, mask := range []int{1, 2, 4, 8} {
+			ps = append(ps, ctl.ProgramsMask(3, 600, mask)...)
+		}
 	}
 	return ps
 }
@@ -30,6 +40,6 @@ func c01(tier string) int {
 	defer env.Close()
 	env.CheckAll(c01Programs(tier == "thorough"), []diffrun.Variant{diffrun.Plain, diffrun.Minified})
 	return finishDiff(env, "C01", tier, start,
-		"G1 control-flow skeletons: all nestings of depth 2 (quick) / 3 (thorough) of 16 constructs (if/else in both arms, else-if chain, if with init, tagless switch, tagged switch with fallthrough, switch with default first, labelled for, for with condition and post, for with a switch inside, fuel-bounded infinite for, range over array, shadowing block, function literal, select with default, defer/recover) above 3-9 leaves that depend on the context (trace, early return, goto to the function end, break, continue, labelled break/continue to every enclosing loop), two condition rotations, each run on all four input vectors; G2 expression shapes: per operand class (Int, int8, uint8, int64, uint32, float64, string) every pair of binary operators in left-nested, right-nested and fully parenthesised form, every unary over binary and binary over unary, unary over unary, comparisons of compound operands, with operands rotating through variable / constant / call result / field of a call result, each evaluated on the cube of a 3-7 point grid (value digest plus the number of calls made); G3/G4: assignment forms on every addressable operand, tuple assignment order, evaluation order of calls in assignment targets, forwarding of multi-value results with implicit conversions, selections of call results in multi-use code templates, string/byte/rune/array conversions, untyped constants at the limits and folding vs variables, and the C16 naming program; each program must build without internal error and behave like native Go, plain and minified",
+		"G1 control-flow skeletons: all nestings of depth 2 (quick) / 3 (thorough) of 16 constructs (if/else in both arms, else-if chain, if with init, tagless switch, tagged switch with fallthrough, switch with default first, labelled for, for with condition and post, for with a switch inside, fuel-bounded infinite for, range over array, shadowing block, function literal, select with default, defer/recover) above 3-9 leaves that depend on the context (trace, early return, goto to the function end, break, continue, labelled break/continue to every enclosing loop), two condition rotations, each run on all four input vectors, as ordinary functions and with the trace statements of one nesting level (thorough: every set of levels) suspending the goroutine, so that resumable and native constructs are nested in each other; G2 expression shapes: per operand class (Int, int8, uint8, int64, uint32, float64, string) every pair of binary operators in left-nested, right-nested and fully parenthesised form, every unary over binary and binary over unary, unary over unary, comparisons of compound operands, with operands rotating through variable / constant / call result / field of a call result, each evaluated on the cube of a 3-7 point grid (value digest plus the number of calls made); G3/G4: lvalues - 11 assignable operand shapes x 14 shapes of the index/pointer operand (calls under conversions, unary, binary, index, dereference, function literals, method calls, variables, constants) x 10 assignment operators, printing the calls made and the whole state; keyed composite literals - every sequence of <= 3 positional or keyed elements (keys in any order, with gaps, literal / named / computed constant keys) x 5 element types x slice, sized and [...] array, nested elided literals and maps; assignment forms on every addressable operand, tuple assignment order, evaluation order of calls in assignment targets, forwarding of multi-value results with implicit conversions, selections of call results in multi-use code templates, string/byte/rune/array conversions, untyped constants at the limits and folding vs variables, and the C16 naming program; each program must build without internal error and behave like native Go, plain and minified",
 		[]string{"reference = native Go on the same source", "how many calls precede a run-time panic inside one expression is not specified by the language and not compared"}, nil)
 }
